@@ -268,7 +268,7 @@ for fn, nm, path in FMT:
       assumptions=['C09: libc formatter (vsscanf/vfscanf/vscanf/vswscanf/vfwscanf/vwscanf/vswprintf/vfwprintf/vwprintf) is an assumed contract: it executes a %n conversion iff the format contains one according to the C directive grammar'])
 
 # ---- narrow printf engine through _snprintf_s_chk: one concrete format per variant (C11, C03, C04, C08, C09)
-PF_SRC = ['src/str/sprintf_s.c', 'src/str/vsprintf_s.c', 'src/str/vsnprintf_s.c', 'src/wchar/wcstombs_s.c', 'src/wchar/wctomb_s.c'] + WCS_COMMON + ['src/mem/safe_mem_constraint.c']
+PF_SRC = ['src/str/sprintf_s.c', 'src/str/snprintf_s.c', 'src/str/vsprintf_s.c', 'src/str/vsnprintf_s.c', 'src/wchar/wcstombs_s.c', 'src/wchar/wctomb_s.c'] + WCS_COMMON + ['src/mem/safe_mem_constraint.c']
 PF_FORMATS = [
     ('s', '%s', 'IN.s[0]'), ('p2s', '%.2s', 'IN.s[0]'), ('w5s', '%5s', 'IN.s[0]'), ('lw4s', '%-4s|', 'IN.s[0]'),
     ('d', '%d', 'IN.iv[0]'), ('w5d', '%5d', 'IN.iv[0]'), ('lw5d', '%-5d|', 'IN.iv[0]'), ('z5d', '%05d', 'IN.iv[0]'), ('p3d', '%.3d', 'IN.iv[0]'),
@@ -281,7 +281,8 @@ PF_FORMATS = [
 ]
 QUICK_PF = {'s', 'p2s', 'lw4s', 'd', 'z5d', 'p3d', 'x', 'c', 'pct', 's_d', 'p3d_d', 'p1s_s', 'n', 'ln', 'hhn', 'w5n', 'pctpctn', 'd_n'}
 J('B.printf.engine.q', ['C11', 'C03', 'C04', 'C08', 'C09', 'C05', 'C01'], 'B', 'harness/printffam.c', sources=PF_SRC, replay=True, unwind=70, object_bits=10, stubs=['stubs/libc_query.c'],
-  variants=[{'label': lab, 'defines': ['FMT="%s"' % f] + (['ARGS=%s' % a] if a else [])} for lab, f, a in PF_FORMATS if lab in QUICK_PF],
+  variants=[{'label': lab, 'defines': ['FMT="%s"' % f] + (['ARGS=%s' % a] if a else [])} for lab, f, a in PF_FORMATS if lab in QUICK_PF] +
+           [{'label': 'sn.' + lab, 'defines': ['ENTRY_SNPRINTF', 'FMT="%s"' % f, 'ARGS=%s' % a]} for lab, f, a in PF_FORMATS if lab in ('s', 'd', 's_d')],
   functions=['_sprintf_s_chk', '_vsprintf_s_chk', '_vsnprintf_s_chk', 'safec_vsnprintf_s', 'safec_out_buffer', 'safec_ntoa_long', 'safec_ntoa_format', 'safec_out_rev'],
   bound='one concrete format per run (%d formats), ints |v| <= 99999, strings <= 4 chars, dmax 1..12' % len(QUICK_PF), timeout=1200, tiers=('quick',))
 J('B.printf.engine.full', ['C11', 'C03', 'C04', 'C08', 'C09', 'C05', 'C01'], 'B', 'harness/printffam.c', sources=PF_SRC, replay=True, unwind=70, object_bits=10, stubs=['stubs/libc_query.c'],
